@@ -19,19 +19,26 @@ structure Schemer where
   counter : Nat := 0
   deriving Inhabited
 
-/-- state of a materialisation: the SemType context (definition tables) is only read -/
-abbrev TM (α : Type) := Ctx → Schemer → Option (α × Schemer)
+/-- state of a materialisation: the schemer tables, and the SemType context (its memo tables are written by the
+emptiness checks that prune empty clauses) -/
+abbrev TM (α : Type) := Ctx → Schemer → Option (α × Ctx × Schemer)
 
 instance : Monad TM where
-  pure a := fun _ s => some (a, s)
+  pure a := fun c s => some (a, c, s)
   bind m f := fun c s => match m c s with
-    | some (a, s') => f a c s'
+    | some (a, c', s') => f a c' s'
     | none => none
 
 def TM.fail {α : Type} : TM α := fun _ _ => none
-def TM.ctx : TM Ctx := fun c s => some (c, s)
-def TM.get : TM Schemer := fun _ s => some (s, s)
-def TM.modify (f : Schemer → Schemer) : TM Unit := fun _ s => some ((), f s)
+def TM.ctx : TM Ctx := fun c s => some (c, c, s)
+def TM.get : TM Schemer := fun c s => some (s, c, s)
+def TM.modify (f : Schemer → Schemer) : TM Unit := fun c s => some ((), c, f s)
+def TM.liftSM {α : Type} (m : SM α) : TM α := fun c s => match m c with
+  | some (a, c') => some (a, c', s)
+  | none => none
+def TM.liftOpt {α : Type} : Option α → TM α
+  | some a => pure a
+  | none => TM.fail
 
 /-- `Runtype::any_object()` -/
 def anyObject : IR := .object [] (some (.anyOf [.number, .string], true, .any))
@@ -99,10 +106,14 @@ def toSchemaNoCache : Nat → SemType → TM IR
 def mappingToSchema : Nat → Bdd → TM IR
   | 0, _ => TM.fail
   | n+1, b => do
-    let clauses ← (Dnf.ofBdd b).mapM fun conj => do
-      let pos ← conj.pos.mapM fun a => mappingAtomSchema n a.idx
-      let neg ← conj.neg.mapM fun a => do pure (IR.stNot (← mappingAtomSchema n a.idx))
-      pure (IR.allOf' (pos ++ neg))
+    let clauses ← (Dnf.ofBdd b).filterMapM fun conj => do
+      -- a clause that denotes nothing is dropped on the semantic side
+      let cb ← TM.liftOpt (Dnf.toBdd fuelB [conj])
+      if ← TM.liftSM (mappingIsEmpty 300 cb) then pure none
+      else do
+        let pos ← conj.pos.mapM fun a => mappingAtomSchema n a.idx
+        let neg ← conj.neg.mapM fun a => do pure (IR.stNot (← mappingAtomSchema n a.idx))
+        pure (some (IR.allOf' (pos ++ neg)))
     pure (IR.anyOf' clauses)
 
 def mappingAtomSchema : Nat → Nat → TM IR
@@ -125,10 +136,13 @@ def mappingAtomSchema : Nat → Nat → TM IR
 def listToSchema : Nat → Bdd → TM IR
   | 0, _ => TM.fail
   | n+1, b => do
-    let clauses ← (Dnf.ofBdd b).mapM fun conj => do
-      let pos ← conj.pos.mapM fun a => listAtomSchema n a.idx
-      let neg ← conj.neg.mapM fun a => do pure (IR.stNot (← listAtomSchema n a.idx))
-      pure (IR.allOf' (pos ++ neg))
+    let clauses ← (Dnf.ofBdd b).filterMapM fun conj => do
+      let cb ← TM.liftOpt (Dnf.toBdd fuelB [conj])
+      if ← TM.liftSM (listIsEmpty 300 cb) then pure none
+      else do
+        let pos ← conj.pos.mapM fun a => listAtomSchema n a.idx
+        let neg ← conj.neg.mapM fun a => do pure (IR.stNot (← listAtomSchema n a.idx))
+        pure (some (IR.allOf' (pos ++ neg)))
     pure (IR.anyOf' clauses)
 
 def listAtomSchema : Nat → Nat → TM IR
@@ -158,9 +172,9 @@ def semtypeToRuntype (fuel : Nat) (ty : SemType) (counter : Nat) : SM (IR × Lis
     let headName := "RecursiveGenerated" ++ toString (counter + 1)
     match toSchema fuel ty (some headName) c' { counter := counter + 1 } with
     | none => none
-    | some (head, s) =>
+    | some (head, c'', s) =>
       let tail := s.validators.filter fun v => s.recursive.contains v.1
-      some ((if s.recursive.contains headName then .ref headName else head, tail, s.counter), c')
+      some ((if s.recursive.contains headName then .ref headName else head, tail, s.counter), c'')
 
 -- ---------- remove_nots_of_intersections_and_empty_of_union ----------
 def isNot : IR → Bool
